@@ -11,7 +11,14 @@ fn decode_case(em: &mut Emitter, mode: u8, c: &[u8]) {
             let t = tlv(0x06, c);
             let take = Constructed::decode(t.as_slice().into_source(), mode_of(mode), |cons| Oid::take_from(cons)).ok();
             let skip = Constructed::decode(t.as_slice().into_source(), mode_of(mode), |cons| Oid::skip_in(cons)).is_ok();
-            (take.map(|o| o.0.to_vec()), skip)
+            // the optional variants and a lazily delivering source accept exactly the same contents
+            let take_opt = Constructed::decode(t.as_slice().into_source(), mode_of(mode), |cons| Oid::take_opt_from(cons)).ok().map(|o| o.map(|o| o.0.to_vec()));
+            let skip_opt = Constructed::decode(t.as_slice().into_source(), mode_of(mode), |cons| Oid::skip_opt_in(cons)).ok();
+            let lazy_take = Constructed::decode(crate::sources::FlexSource::new(&t, crate::sources::Policy::Exact, None), mode_of(mode), |cons| Oid::take_from(cons)).ok().map(|o| o.0.to_vec());
+            let lazy_skip = Constructed::decode(crate::sources::FlexSource::new(&t, crate::sources::Policy::Exact, None), mode_of(mode), |cons| Oid::skip_in(cons)).is_ok();
+            let take = take.map(|o| o.0.to_vec());
+            let same = take_opt == take.clone().map(Some) && skip_opt == (if skip { Some(Some(())) } else { None }) && lazy_take == take && lazy_skip == skip;
+            (if same { take } else { Some(vec![0xEE; 3]) }, if same { skip } else { false })
         });
         match r {
             Some((take, skip)) => {
